@@ -13,6 +13,8 @@ import (
 	"sync"
 	"sync/atomic"
 	"time"
+
+	"golang.org/x/tools/go/ssa"
 )
 
 // A family produces extra obligations for a property (F6, F7, F8, ...).
@@ -35,6 +37,41 @@ type fnResult struct {
 	obls    []*Obligation
 	err     error
 	reachOK bool
+}
+
+// callsRequiring: fn statically calls a function of the package whose contract has a precondition
+// tagged with prop explicitly (requires[Cxx]).
+func callsRequiring(w *World, fn *ssa.Function, prop string) bool {
+	for _, b := range fn.Blocks {
+		for _, in := range b.Instrs {
+			c, ok := in.(ssa.CallInstruction)
+			if !ok {
+				continue
+			}
+			sc := c.Common().StaticCallee()
+			if sc == nil || sc.Pkg != w.Pkg {
+				continue
+			}
+			if ct := w.Contracts.ByName[displayName(sc)]; ct != nil {
+				for _, r := range ct.Requires {
+					if r.Tagged && !r.Global && hasProp(r.Props, prop) {
+						return true
+					}
+				}
+			}
+		}
+	}
+	return false
+}
+
+// ensuresFor: the contract has a postcondition claimed for prop.
+func ensuresFor(ct *Contract, prop string) bool {
+	for _, e := range ct.Ensures {
+		if hasProp(e.Props, prop) {
+			return true
+		}
+	}
+	return false
 }
 
 func cmdCheck(w *World, args []string, tier string, verbose bool) int {
@@ -105,6 +142,12 @@ func cmdCheck(w *World, args []string, tier string, verbose bool) int {
 			}
 		}
 		if !relevant {
+			// a caller owes the preconditions its callees claim for this property
+			if f := w.Funcs[ct.Name]; f != nil && callsRequiring(w, f, prop) {
+				relevant = true
+			}
+		}
+		if !relevant {
 			continue
 		}
 		fn := w.Funcs[ct.Name]
@@ -143,6 +186,10 @@ func cmdCheck(w *World, args []string, tier string, verbose bool) int {
 			if safetyKinds[o.Kind] {
 				if prop == "C05" && hasProp(ct.Props, "C05") {
 					o.Props = []string{"C05"}
+				} else if o.Kind == "ovf" && ensuresFor(ct, prop) {
+					// a postcondition speaks about mathematical integers: it describes what the machine
+					// computes only when no operation of the function wraps around
+					o.Props = []string{prop}
 				} else {
 					continue
 				}
